@@ -1,7 +1,7 @@
 //! The declared universe of C12: initial zones, prerequisite atoms, update atoms, messages.
 
 use vref::update as ru;
-use vupd::{a, cname, empty, ns, soa, txt, with_class, with_ttl, Msg, Rr};
+use vupd::{a, cname, empty, ns, soa, txt, with_class, Msg, Rr};
 
 pub const OWNERS: [&str; 4] = ["z.", "a.z.", "b.z.", "a.a.z."];
 pub const TYPES: [u16; 5] = [ru::T_A, ru::T_TXT, ru::T_CNAME, ru::T_NS, ru::T_SOA];
@@ -124,7 +124,6 @@ pub fn soa_update_atoms() -> Vec<AtomSpec> {
     }
     v.push(AtomSpec::soa_rel("z.", ru::CLASS_IN, 60, 1, 1)); // only the serial differs
     v.push(AtomSpec::soa_rel("a.z.", ru::CLASS_IN, 60, 1, 2)); // SOA add off the apex
-    v.push(AtomSpec::soa_rel("a.z.", ru::CLASS_IN, 60, 0, 2));
     // delete RR, type SOA
     v.push(AtomSpec::soa_rel("z.", ru::CLASS_NONE, 0, 0, 1));
     v.push(AtomSpec::soa_rel("a.z.", ru::CLASS_NONE, 0, 0, 2));
@@ -185,7 +184,7 @@ fn product(ps: &[AtomSpec], us: &[AtomSpec]) -> Vec<MsgSpec> {
 }
 
 /// M1: at most one prerequisite atom x at most one update atom, every form.
-pub fn m1(_thorough: bool) -> Vec<MsgSpec> {
+pub fn m1() -> Vec<MsgSpec> {
     product(&prereq_atoms(), &update_atoms())
 }
 
